@@ -164,12 +164,15 @@ def run_graph(r, n, adj, declared, strict=True, edges_variants=True, labelled=Fa
         lab = lambda x: fresh(NODE_LABELS[x])  # noqa: E731
         inv = {NODE_LABELS[x]: x for x in range(n)}
         nbl = lambda v: [lab(w) for w in adj[inv[v]]]  # noqa: E731
-        wit["labelled"] = True
+        if labelled == "oneshot":
+            # the node collection and every neighbour answer are one-shot iterables (generators): legal Iterable[S] values
+            nbl = lambda v: (lab(w) for w in adj[inv[v]])  # noqa: E731
+        wit["labelled"] = labelled
         edges_variants = False
 
         def translated(fn):
             def call():
-                res = fn([lab(x) for x in declared], nbl)
+                res = fn((lab(x) for x in declared) if labelled == "oneshot" else [lab(x) for x in declared], nbl)
                 return SimpleNamespace(status=res.status, objective=res.objective, solution=unlabel(res.solution, inv))
 
             return call
@@ -231,6 +234,7 @@ def _all_chunk(params, lo, hi):
         run_graph(r, n, adj, perms[pi], True, edges_variants=(pi == 0))
         if pi == len(perms) - 1:
             run_graph(r, n, adj, perms[pi], True, labelled=True)
+            run_graph(r, n, adj, perms[pi], True, labelled="oneshot")
         if len(r["violations"]) >= 40 or too_many_hangs():
             r["capped"] = True
             break
@@ -367,7 +371,7 @@ def replay(v):
     w = v["witness"]
     r = new_result()
     strict = sorted(w["nodes"]) == list(range(w["n"]))
-    run_graph(r, w["n"], w["adj"], tuple(w["nodes"]), strict, labelled=bool(w.get("labelled")))
+    run_graph(r, w["n"], w["adj"], tuple(w["nodes"]), strict, labelled=w.get("labelled") or False)
     for x in r["violations"]:
         if x["function"] == v["function"]:
             return x
